@@ -200,6 +200,8 @@ def gen_doc(rng):
     d = bytearray(b"".join(pieces))
     if d and rng.random() < 0.3:
         for _ in range(rng.randint(1, 2)):
+            if not d:
+                break
             i = rng.randrange(len(d))
             c = rng.random()
             if c < 0.4:
@@ -214,6 +216,7 @@ def gen_doc(rng):
 def gen_js(rng):
     pieces = [b"'", b'"', b"\\", b"\\u1234", b"\\x4", b"\\x41", b"\\u{1F}", b"\\u{", b"\\u12", b"\\'", b'\\"', b"\\\\", b"a", b"b ", b"\n", b"x=", b";",
               b"\\X41", b"\\U0041", b"\\U{1F}", b"\\xAf", b"\\uABcd", b"\\xg1", b"\\u{1G}",
+              b"\\u{0000041}", b"\\u{00000000000000041}", b"\\u{10FFFF}", b"\\u{0000041",
               b"{", b"}", b"G", b"\xff", b"\xc3\xa9"]
     return b"".join(rng.choice(pieces) for _ in range(rng.randint(0, 14)))
 
